@@ -195,8 +195,6 @@ def choose_texts(af, info, font, rng, limit, exhaustive):
         return []
     if exhaustive:
         texts = [[a] for a in chars] + [[a, b] for a in chars for b in chars]
-        if len(chars) <= 3:
-            texts += [[a, b, c] for a in chars for b in chars for c in chars]
         return texts[:limit]
     texts = []
     if "L" in af:
@@ -266,10 +264,19 @@ def _run_case(case):
 
     # ---- inputs --------------------------------------------------------
     afs, infos, datas = [], [], []
+    dupnames = False
     for p in paths:
         with open(p, "rb") as f:
             datas.append(f.read())
         font = TTFont(p)
+        if datas[-1][:4] in (b"wOFF", b"wOF2"):  # HarfBuzz reads plain sfnt: hand it the uncompressed container
+            tmp = TTFont(p)
+            tmp.flavor = None
+            buf = io.BytesIO()
+            tmp.save(buf)
+            datas[-1] = buf.getvalue()
+        if "post" in font and getattr(font["post"], "mapping", None):
+            dupnames = True  # the file carries non-unique glyph names; the reader renames them and restores them on save
         if "glyf" not in font and "CFF " not in font:
             out["skips"].append("input without glyf/CFF outlines")
             return out
@@ -329,6 +336,9 @@ def _run_case(case):
     carried = "CFF " in mfont or ("post" in mfont and mfont["post"].formatType == 2)
     msh = hb.Shaper(mdata)
     fnames = [msh.glyph_name(g) for g in range(msh.face.glyph_count)] if carried else []
+    if dupnames:
+        out["skips"].append("an input file carries non-unique glyph names (restored on save): names in the saved file not judged")
+        fnames = []
     m = {"names": mem_names, "fnames": fnames, "cmap": maf["cmap"], "adv": maf["adv"], "out": maf["out"],
          "maxp": mem_maxp, "fmaxp": int(fmaxp), "hbn": int(msh.face.glyph_count)}
     trace["m"] = m
